@@ -148,6 +148,8 @@ structure DS where
   /-- which of the position / velocity / acceleration caches are known to describe the current
       state (bit 0, 1, 2): set by UK / UKC, cleared by everything that may touch state or workspace -/
   kfresh : Nat := 0
+  /-- (id, parent, frame) of every body added on a movable, non-virtual parent: what the queries must return -/
+  supplied : List (Nat × Nat × XT Q) := []
   geo : GeomDriver.GS := {}
   lua : Rbdl.LuaDriver.LS := {}
 
@@ -788,7 +790,12 @@ def step0 (d : DS) (line : String) : DS × Option String :=
       let (d, s) := afterAdd d r cmd
       if !okRes then (d, some s) else
       let (sb', _) := d.sb.add parent X.E X.r jd b.mass b.com b.inertia
-      ({ d with sb := sb' }, some s)
+      -- C14: "parent / joint-frame queries return what was supplied for bodies on movable parents"
+      let rec1 := match r.2 with
+        | .ok id => if id < fixedDisc ∧ parent < fixedDisc ∧ !((r.1.bodies.getD parent default).isVirtual)
+                    then [(id, parent, X)] else []
+        | .error _ => []
+      ({ d with sb := sb', supplied := d.supplied ++ rec1 }, some s)
     | "setmass" =>
       let (id, t) := t.nat; let (x, _) := t.rat
       let (d, s) := afterSet d (d.m.setBodyMass id x) id cmd
@@ -810,7 +817,8 @@ def step0 (d : DS) (line : String) : DS × Option String :=
       let (m', res) := d.m.setJointFrame id X
       let (d, s) := out { d with m := m' } cmd (match res with | .ok _ => "ok" | .error e => s!"err {errName e}")
       (match res with
-       | .ok _ => ({ d with sb := d.sb.setFrame id X.E X.r }, some s)
+       | .ok _ => ({ d with sb := d.sb.setFrame id X.E X.r,
+                             supplied := d.supplied.map (fun p => if p.1 = id then (id, p.2.1, X) else p) }, some s)
        | .error _ => (d, some s))
     | "join" | "separate" | "joinsep" =>
       let (a, t) := parseBody t; let (X, t) := t.xt; let (b, _) := parseBody t
@@ -834,10 +842,18 @@ def step0 (d : DS) (line : String) : DS × Option String :=
     | "params" => let (d, s) := out d cmd (dumpParams d.m); (d, some s)
     | "getparent" =>
       let (id, _) := t.nat
-      let (d, s) := out d cmd (toString (d.m.getParentBodyId id)); (d, some s)
+      let r := out d cmd (toString (d.m.getParentBodyId id))
+      let r := match d.supplied.find? (fun p => p.1 = id) with
+        | some p => also r d "getparent.spec" (toString p.2.1)
+        | none => r
+      (r.1, some r.2)
     | "getframe" =>
       let (id, _) := t.nat
-      let (d, s) := out d cmd (showXT (d.m.getJointFrame id)); (d, some s)
+      let r := out d cmd (showXT (d.m.getJointFrame id))
+      let r := match d.supplied.find? (fun p => p.1 = id) with
+        | some p => also r d "getframe.spec" (showXT p.2.2)
+        | none => r
+      (r.1, some r.2)
     | "getid" =>
       let (nm, _) := t.next
       let (d, s) := out d cmd (toString (d.m.getBodyId nm)); (d, some s)
